@@ -150,6 +150,10 @@ structure Variant where
   operand if the two overlap" — a written `'readable & 'writable` resolved to `'readable` alone
   (narrowing functions, `Narrow.lean`) -/
   partialIntersectKeepsLeft : Bool := false
+  /-- between 02d463a and 7120dc6: the partial-vs-partial arm of `intersect_pair` was taken also when an
+  operand contains a `Cycle` — a variant taken out of its recursive union — and copied the back-reference
+  out of the union it points to (R8) -/
+  partialIntersectUnguarded : Bool := false
   deriving DecidableEq, Repr, Inhabited
 
 
